@@ -24,6 +24,8 @@ pub struct TraceResult {
 pub struct TraceOpts {
     pub fair_phase: bool,
     pub verbose: bool,
+    /// Miri mode: membership only (no key-values), short
+    pub no_data: bool,
 }
 
 fn frontiers(w: &World, slot: usize) -> BTreeMap<usize, (u64, u64)> {
@@ -277,7 +279,13 @@ pub async fn fair_phase(w: &mut World, assert_convergence: bool) {
 
 pub async fn run_trace(profile: Profile, seed: u64, idx: u64, opts: TraceOpts) -> TraceResult {
     let mut crng = rng_from(mix(seed, 7));
-    let cfg = SimCfg::generate(profile, &mut crng);
+    let mut cfg = SimCfg::generate(profile, &mut crng);
+    if opts.no_data {
+        cfg.no_data = true;
+        cfg.steps = cfg.steps.min(60);
+        cfg.n_slots = cfg.n_slots.min(3);
+        cfg.cluster_of.truncate(cfg.n_slots);
+    }
     let mut w = World::new(cfg, seed);
     let n = w.slots.len();
     let late = if w.cfg.late_join { Some(n - 1) } else { None };
@@ -332,6 +340,7 @@ fn witness_cfg(n: usize) -> SimCfg {
         crashes: false,
         steps: 0,
         late_join: false,
+        no_data: false,
     }
 }
 
@@ -458,7 +467,8 @@ pub struct E1Run {
 /// Runs the E1 workload for `prop` and returns the findings relevant to it.
 pub fn run_e1(args: &Args, prop: &str, deadline: &Deadline) -> E1Run {
     let plan = plan_for(prop);
-    let n = args.n(plan.quick, plan.thorough);
+    let miri = args.has("--miri");
+    let n = if miri { 6 } else { args.n(plan.quick, plan.thorough) };
     let seed = args.seed;
     let results = par_run(n, args.threads, |i| {
         if deadline.expired() {
@@ -467,7 +477,7 @@ pub fn run_e1(args: &Args, prop: &str, deadline: &Deadline) -> E1Run {
         let profile = profile_for(&plan, i);
         let tseed = mix3(seed, i, hash_str(prop) & 0xff); // traces differ per property and per VERIF_SEED
         let rt = paused_rt();
-        let r = catch(|| rt.block_on(run_trace(profile, tseed, i, TraceOpts { fair_phase: plan.fair, verbose: false })));
+        let r = catch(|| rt.block_on(run_trace(profile, tseed, i, TraceOpts { fair_phase: plan.fair && !miri, verbose: false, no_data: miri })));
         Some((profile, tseed, r))
     });
     let mut out = E1Run { findings: vec![], known: BTreeMap::new(), stats: Counters::default(), traces: 0, steps: 0, distinct: Default::default(), skipped: n, samples: vec![] };
@@ -530,7 +540,7 @@ pub fn replay(args: &Args, path: &std::path::Path) -> i32 {
         _ => Profile::Replication,
     };
     let rt = paused_rt();
-    let tr = rt.block_on(run_trace(profile, tseed, idx, TraceOpts { fair_phase: true, verbose: true }));
+    let tr = rt.block_on(run_trace(profile, tseed, idx, TraceOpts { fair_phase: true, verbose: true, no_data: false }));
     let mut code = 0;
     for f in &tr.findings {
         println!("FINDING props={:?} kind={} known={:?}\n  {}", f.props, f.kind, f.known, f.detail);
@@ -554,11 +564,13 @@ pub fn check(args: &Args) -> Outcome {
     // 1. directed witnesses
     let rt = paused_rt();
     let mut wit: Vec<(&str, TraceResult)> = vec![];
-    wit.push(("kf1", rt.block_on(witness_kf1())));
-    for d in [-1i64, 0, 1] {
-        wit.push(("issue178", rt.block_on(witness_178(d))));
+    if !args.has("--miri") {
+        wit.push(("kf1", rt.block_on(witness_kf1())));
+        for d in [-1i64, 0, 1] {
+            wit.push(("issue178", rt.block_on(witness_178(d))));
+        }
+        wit.push(("empty_tail", rt.block_on(witness_empty_tail())));
     }
-    wit.push(("empty_tail", rt.block_on(witness_empty_tail())));
     let mut kf1_witness_reproduced = false;
     for (name, tr) in wit {
         ev.evaluations += 1;
